@@ -526,7 +526,7 @@ namespace
                 if (i + 1 == ops.size())
                     w->check(); // the prefix was checked when it was the end of a shorter history
             }
-            vf::count_case(vf::hash_bytes(h.data(), h.size() * sizeof(int), 0xD0 + (uint64_t)sc), nontrivial(ops));
+            vf::count_case(vf::mix(vf::hash_bytes(h.data(), h.size() * sizeof(int), 0xD0), (uint64_t)sc), nontrivial(ops));
             if (sc && nontrivial(ops))
                 VF_OK("exhaustive history with every time quantity scaled by >= 2^31");
             w->teardown(h.empty() ? 0 : variant_of(h, h.size() - 1) >> 7);
